@@ -8,6 +8,9 @@
 (*   {"ids":[..], "refs":[[..],..],                                        *)
 (*    "got":{"ok":b, "ids":[..], "tokens":[[def id, ref ids..],..]}}       *)
 (*   ok = FALSE: printing panicked (AssignMetadataIDs returned an error).  *)
+(*   History rows carry in addition "ins", "refs2", "got2": an unnumbered  *)
+(*   definition was inserted after position ins and the module printed     *)
+(*   again; the same laws are required of (InsAt(got.ids, ins, -1), got2). *)
 (* Laws (operators of Metadata.tla applied to the recorded outcome):       *)
 (*   error-iff-duplicate, unique, explicit-kept, smallest-unused,          *)
 (*   ref-prints-target-id  (tokens = Tokens(got.ids, refs)).               *)
@@ -48,6 +51,15 @@ IRBad(r) == LET row == IR[r] s == row.ids g == row.got IN
   + Chk(M!LawExplicitKept(s, g),      "ir", "explicit-kept", r)
   + Chk(M!LawSmallestUnused(s, g),    "ir", "smallest-unused", r)
   + Chk(g.ok /\ Len(g.ids) = Len(s) => g.tokens = M!Tokens(g.ids, row.refs), "ir", "ref-prints-target-id", r)
+  \* history rows (MetadataHist.tla): an unnumbered definition inserted after position ins, printed again
+  + (IF "ins" \in DOMAIN row /\ g.ok /\ Len(g.ids) = Len(s)   \* (a wrong first print is reported above)
+     THEN LET s2 == M!InsAt(g.ids, row.ins, -1) g2 == row.got2 IN
+            Chk(g2.ok, "ir", "second-print-ok", r)
+          + Chk(M!LawUnique(s2, g2) /\ M!LawExplicitKept(s2, g2), "ir", "second-print-explicit-kept", r)
+          + Chk(M!LawSmallestUnused(s2, g2), "ir", "second-print-smallest-unused", r)
+          + Chk(g2.ok /\ Len(g2.ids) = Len(s2) => g2.tokens = M!Tokens(g2.ids, row.refs2),
+                "ir", "second-print-ref-prints-target-id", r)
+     ELSE 0)
 
 DefIds(w)      == [x \in 1..Len(w.defs) |-> w.defs[x].id]
 DefDistinct(w) == [x \in 1..Len(w.defs) |-> w.defs[x].distinct]
